@@ -306,6 +306,8 @@ def map(
     if isinstance(resolution, int):
         resolution = {"x": resolution, "y": resolution}
     else:
+        # Do not complete the dict of the caller in place
+        resolution = dict(resolution)
         for xy in "xy":
             if xy not in resolution:
                 resolution[xy] = default_resolution
